@@ -2,9 +2,10 @@ package cfdrv
 
 import (
 	"fmt"
-	"strings"
+	"math/rand"
 	"os"
 	"sort"
+	"strings"
 
 	"github.com/btcsuite/btcd/chainhash/v2"
 	"github.com/btcsuite/btcd/wire/v2"
@@ -161,7 +162,13 @@ func (w *world) planRound(np, start, stop, tip int, forced []string, forcedD []i
 			}
 		default: // liar or an explicit mode
 			mode := kind
-			for _, h := range D {
+			Dp := D
+			own := false
+			if d, ok := w.peerD[p]; ok {
+				// a scripted round: this peer lies at exactly its own heights
+				Dp, own = d, true
+			}
+			for _, h := range Dp {
 				if kind == "liar" {
 					mode = liarModes[r.Intn(len(liarModes))]
 				}
@@ -195,6 +202,9 @@ func (w *world) planRound(np, start, stop, tip int, forced []string, forcedD []i
 					rp.served[h] = -1
 				}
 				kind = mode
+				if own {
+					continue
+				}
 				if r.Intn(2) == 0 || mode == "zero" {
 					break
 				}
@@ -278,10 +288,28 @@ func (w *world) planRound(np, start, stop, tip int, forced []string, forcedD []i
 				w.t.Line("vb %d %d %s", h, f, w.vbRow(f, w.chain[h]))
 			}
 		}
-		if r.Intn(12) == 0 {
+		if w.peerD == nil && r.Intn(12) == 0 {
 			w.gbFail[h] = true
 			w.t.Line("gb %d => -", h)
 			w.t.Hit("getblock.fail")
+		}
+	}
+	// what every peer would hand out at the OTHER heights of the batch (the true
+	// filter): without these rows the oracle knows of no peer that serves the whole
+	// batch honestly and makes no honest-wins claim for batches longer than the
+	// set of deviation heights
+	if n <= 64 {
+		for h := start; h <= stop; h++ {
+			if seenH[h] {
+				continue
+			}
+			for _, rp := range ps {
+				if f := rp.served[h]; f >= 0 {
+					w.t.Line("fl %d %d %d => -", rp.id, h, f)
+				} else {
+					w.t.Line("fl %d %d - => -", rp.id, h)
+				}
+			}
 		}
 	}
 	return ps
@@ -546,6 +574,85 @@ func tipCase(w *world, nops int) {
 	}
 }
 
+// distinctCase: at-tip rounds in which several liars lie at DIFFERENT positions
+// of one batch, each self-consistently (the filter it serves hashes to what it
+// advertised and omits an output script of the block), next to honest peers.
+// Nobody is silent or self-inconsistent, so the recorded shape
+// detectBadPeers-early-return is absent and the honest-wins clause applies in
+// full: every liar banned, the honest batch committed.  The positions are placed
+// on purpose: first and last of the batch, neighbours (the later position held
+// by the peer planned first), anywhere, far apart in a long batch; one liar may
+// lie at a second liar's position as well.  Draws from a PRNG stream of its own.
+func distinctCase(w *world, rs *rand.Rand, variant int) {
+	old := w.r
+	w.r = rs
+	defer func() { w.r = old; w.peerD = nil }()
+	w.reset(nil)
+	nl := 2 + rs.Intn(2)
+	nh := 1 + rs.Intn(2)
+	np := nl + nh
+	disc := rs.Intn(2) == 0
+	n := 2 + rs.Intn(7)
+	if variant%4 == 3 {
+		n = 20 + rs.Intn(40)
+	}
+	if n < nl {
+		n = nl
+	}
+	f0 := rs.Intn(3)
+	w.begin("tip", np, disc, f0+n, f0, " scripted distinct-positions")
+	start := f0 + 1
+	pos := rs.Perm(n)[:nl] // distinct positions
+	switch variant % 4 {
+	case 0:
+		pos[0], pos[1] = n-1, 0
+	case 1:
+		k := rs.Intn(n - 1)
+		pos[0], pos[1] = k+1, k
+		if nl > 2 && (pos[2] == k || pos[2] == k+1) {
+			pos[2] = (k + 2) % n
+			if pos[2] == k || pos[2] == k+1 {
+				nl = 2
+			}
+		}
+	case 3:
+		pos[0], pos[1] = n-1-rs.Intn(3), rs.Intn(3)
+		if nl > 2 {
+			pos[2] = 5 + rs.Intn(n-10)
+		}
+	}
+	modes := []string{"omit-c", "omitall-c", "omitunp-c"}
+	forced := make([]string, np)
+	w.peerD = map[int][]int{}
+	seen := map[int]bool{}
+	var D []int
+	for i, k := range rs.Perm(np) {
+		if i >= nl {
+			forced[k] = "honest"
+			continue
+		}
+		forced[k] = modes[rs.Intn(len(modes))]
+		hs := []int{start + pos[i]}
+		if i == 0 && rs.Intn(3) == 0 {
+			hs = append(hs, start+pos[1])
+		}
+		w.peerD[k+1] = hs
+		for _, h := range hs {
+			if !seen[h] {
+				seen[h] = true
+				D = append(D, h)
+			}
+		}
+	}
+	sort.Ints(D)
+	w.t.Hit(fmt.Sprintf("scripted.distinct-positions.v%d", variant%4))
+	w.tipRoundAt(np, disc, forced, D)
+	// what is asked next must not depend on what was just resolved
+	w.peerD = nil
+	w.ext(1 + rs.Intn(2))
+	w.tipRound(np, disc, nil)
+}
+
 // probeZero: one honest peer and one peer advertising the all-zero filter hash
 // and serving no filter.  Until finding zero-hash-sentinel was repaired the zero
 // hash was the "unset" marker of checkForCFHeaderMismatch and this peer escaped
@@ -603,12 +710,22 @@ func run(t *tr.W, thorough bool) {
 	for i := 0; i < 120*budget; i++ {
 		tipCase(w, 3+r.Intn(6))
 	}
+	// scripted: liars at different positions of one batch (own PRNG stream)
+	rs := tr.Rng(3031)
+	for i := 0; i < 12*budget; i++ {
+		distinctCase(w, rs, i)
+	}
 	w.close()
 	for _, sc := range []string{"false-partial", "store-disagrees", "hard", "liars-apart", "liars-apart"} {
 		cpCase(t, r, sc)
 	}
 	for i := 0; i < 4*budget; i++ {
 		cpCase(t, r, "random")
+	}
+	// scripted: checkpoint lists of differing lengths (own PRNG stream)
+	rc := tr.Rng(3033)
+	for i := 0; i < 3*budget; i++ {
+		cpCase(t, rc, "short-list")
 	}
 	w = newWorld(t, r, nil)
 	if os.Getenv("VERIF_C03_PROBES") != "" {
